@@ -88,10 +88,30 @@ func ruleSibling(p *Program, r *Result) {
 		s1 := false
 		entry := D.Blocks[0]
 		if iff, ok := entry.Instrs[len(entry.Instrs)-1].(*ssa.If); ok {
+			// the flag test: Flags.Has(Unencrypted), or the same mask test written out
+			var flagAddr ssa.Value
+			var flagConst int64 = -1
 			if call, ok := iff.Cond.(*ssa.Call); ok {
 				if f := call.Common().StaticCallee(); f != nil && f.Name() == "Has" && hasIsMaskTest(f) && len(call.Common().Args) == 2 {
-					if c, okc := constInt(call.Common().Args[1]); okc && c == unenc {
-						if fl, _, okf := fieldAddrOf(call.Common().Args[0]); okf && fl.Name() == "Flags" {
+					if c, okc := constInt(call.Common().Args[1]); okc {
+						flagAddr, flagConst = call.Common().Args[0], c
+					}
+				}
+			} else if ne, ok := iff.Cond.(*ssa.BinOp); ok && ne.Op == token.NEQ {
+				if z, okz := constInt(ne.Y); okz && z == 0 {
+					if and, ok := ne.X.(*ssa.BinOp); ok && and.Op == token.AND {
+						if c, okc := constInt(and.Y); okc {
+							if u, ok := and.X.(*ssa.UnOp); ok && u.Op == token.MUL {
+								flagAddr, flagConst = u.X, c
+							}
+						}
+					}
+				}
+			}
+			if flagAddr != nil {
+				{
+					if flagConst == unenc {
+						if fl, _, okf := fieldAddrOf(flagAddr); okf && fl.Name() == "Flags" {
 							tb := entry.Succs[0]
 							if ret, ok := tb.Instrs[len(tb.Instrs)-1].(*ssa.Return); ok && len(ret.Results) == 2 && isNilConst(ret.Results[0]) && isNilConst(ret.Results[1]) {
 								// the other successor goes directly to a comparison of Header.Type
